@@ -263,7 +263,7 @@ def run_shape(chk, ns, nq, np_, nv, n_sym_T, acoustic_zero=True, tgrid="T0-first
 
 
     try:
-        paths = X.explore(run, name="C01:" + tag, max_paths=16)
+        paths = X.explore(run, name="C01:" + tag, max_paths=16, generic=True)
     except SymError as e:
         chk.harness_error("symbolic run failed: %s" % e)
         return
